@@ -148,6 +148,31 @@ def o63(ctx):
                         fn3, m3, witness=vk.witness)
 
 
+def o65(ctx):
+    """Euler-angle array input is only another spelling of the rotations: every distance must equal the one computed from the
+    rotation objects built from those angles (the path used by compare_rotations callers that hold angle tables)"""
+    A1 = Arr([sym("phi1"), sym("theta1"), sym("psi1")], 2)
+    A2 = Arr([sym("phi2"), sym("theta2"), sym("psi2")], 2)
+    R1 = T("euler", const("zxz"), T("vec", sym("phi1"), sym("theta1"), sym("psi1")), const(True))
+    R2 = T("euler", const("zxz"), T("vec", sym("phi2"), sym("theta2"), sym("psi2")), const(True))
+    wide = {k: (lambda rng: float(rng.uniform(-400, 400))) for k in ("phi1", "theta1", "psi1", "phi2", "theta2", "psi2")}
+    for q in ("geom.cone_inplane_distance", "geom.compare_rotations"):
+        m, fn = ctx.prog.func(q)
+        ctx.touched(q)
+        ra = Interp(ctx.prog).run(q, [A1, A2], {})
+        rr = Interp(ctx.prog).run(q, [Rot(sym("R1")), Rot(sym("R2"))], {})
+        if not (isinstance(ra.ret, Seq) and isinstance(rr.ret, Seq) and len(ra.ret.items) == len(rr.ret.items)):
+            raise Unsupported(f"{q}: results for array and rotation input have different structure", fn)
+        for k, (xa, xr) in enumerate(zip(ra.ret.items, rr.ret.items)):
+            want = tm.subst(to_term(xr), {sym("R1"): R1, sym("R2"): R2})
+            v = tm.equivalent(to_term(xa), want, samplers=wide, n=30, tol=1e-6, seed_tag=q + "arr" + str(k))
+            ctx.count(1, {"function": q, "element": k, "array input == rotation input": bool(v)})
+            if not v:
+                ctx.finding(q, f"element {k} for Euler-angle array input", f"{q}: for angle arrays, element {k} of the result differs from the "
+                            "value computed from the rotations those angles describe (angles outside the canonical ranges, or a different "
+                            "convention, give another number)", fn, m, witness=v.witness)
+
+
 def o61(ctx):
     q = "geom.euler_angles_to_normals"
     m, fn = ctx.prog.func(q)
@@ -202,6 +227,7 @@ def o64(ctx):
 
 def _obligations():
     return [
+        Obligation("O6.5", "angle-array input gives the same distances as the rotations it describes (cone/in-plane/angular)", o65, floor=5),
         Obligation("O6.1", "euler_angles_to_normals returns the unit image of the z-axis per orientation", o61, floor=3),
         Obligation("O6.2", "angular_distance = rotation angle of R1^-1 R2, arccos argument clamped", o62, floor=3),
         Obligation("O6.3", "cone distance = angle between z-axes (clamped); in-plane distance in [0,180], 0 for equal; triple order", o63, floor=40),
